@@ -96,7 +96,21 @@ def c20(ck, tier, seed):
         res = vlib.run_driver(binary, "tdd", {"seed": seed + 31, "tier": tier}, od, timeout=1800)
         tfiles = ck.add_driver(res)
         ck.add_validation(vlib.validate("TraceMV", tfiles, ["C20"]), driver_cmd=[" ".join(map(str, res["cmd"]))])
-    ck.cov["rule"] += "; TDD histories executed by the pointer-based builds (TraceMV, obligations owned by C20)"
+    # model counting (shared SatCountCache across gc / reordering / changing vars) and cube picking under the
+    # pointer-based builds: the drivers of C12 / C13, their obligations handed over to C20
+    for feats in (["ptr,cache,mt"] if tier == "quick" else ["ptr,cache,mt", "ptr"]):
+        binary = vlib.build_harness(feats)
+        for drv, alias in [("count", "C12"), ("pick", "C13")]:
+            pfiles, cmds = [], []
+            for i, k in enumerate(["bdd", "bcdd", "zbdd"]):
+                od = os.path.join(ck.outdir, "%s-%s-%s" % (drv, feats.replace(",", "_"), k))
+                res = vlib.run_driver(binary, drv, {"kind": k, "seed": seed * 11 + i, "tier": "quick"}, od)
+                pfiles += ck.add_driver(res)
+                cmds.append(" ".join(map(str, res["cmd"])))
+            ck.add_validation(vlib.validate("TraceManager", pfiles, ["C20"], extra_env={"ALIAS_" + alias: "C20"}),
+                              driver_cmd=cmds)
+    ck.cov["rule"] += ("; TDD histories, the model counting histories (C12 driver) and the cube picking histories (C13 driver) "
+                       "executed by the pointer-based builds (obligations handed over to C20)")
     ck.assumptions += ["features hugealloc / statistics / parking_lot are not varied", "MTBDD exists on the index backend only"]
 
 
